@@ -145,7 +145,9 @@ func genC02(t *rapid.T) C02Case {
 			st.Doc = rapid.IntRange(0, 1).Draw(t, "doc")
 		}
 		d := st.Doc
-		switch rapid.IntRange(0, 9).Draw(t, "kind") {
+		switch rapid.IntRange(0, 10).Draw(t, "kind") {
+		case 10:
+			st.Kind = "config" // the user changes a setting while documents are open
 		case 0:
 			st.Kind = "full"
 			st.Text = c02GenText(t, 8, "full")
@@ -227,6 +229,14 @@ func checkC02(c C02Case, env *Env) *Violation {
 			saved[d] = text[d]
 			add(proto.Step{Op: "write", Path: rel, Data: []byte(text[d])})
 			add(harness.DidSave(rel, text[d]))
+		case "config":
+			// clients send the whole settings object; the server ignores the first notification after
+			// start-up, so it is sent twice
+			warn := harness.AllOn()
+			delete(warn, "client")
+			set := harness.J(harness.M{"settings": harness.M{"luahelper": harness.M{"base": harness.M{"ReferenceMaxNum": 3000, "ReferenceIncudeDefine": true}, "Warn": warn}}})
+			add(proto.Step{Op: "notify", Method: "workspace/didChangeConfiguration", Params: set})
+			add(proto.Step{Op: "notify", Method: "workspace/didChangeConfiguration", Params: set})
 		case "reopen":
 			add(harness.DidClose(rel))
 			text[d] = saved[d]
